@@ -124,7 +124,7 @@ extern void mpt_identifier_init(MPT_STRUCT(identifier) *id, size_t len)
 extern void *mpt_identifier_copy(MPT_STRUCT(identifier) *id, const MPT_STRUCT(identifier) *from)
 {
 	const void *base;
-	void *dest;
+	void *dest, *old;
 	
 	if (!from) {
 		return mpt_identifier_set(id, 0, 0);
@@ -132,6 +132,8 @@ extern void *mpt_identifier_copy(MPT_STRUCT(identifier) *id, const MPT_STRUCT(id
 	if (id == from) {
 		return (id->_len > id->_max) ? id->_base : id->_val;
 	}
+	/* old allocation, local data overlaps its address */
+	old = (id->_len > id->_max) ? id->_base : 0;
 	base = (from->_len > from->_max) ? from->_base : from->_val;
 	if (from->_len <= id->_max) {
 		dest = id->_val;
@@ -139,10 +141,12 @@ extern void *mpt_identifier_copy(MPT_STRUCT(identifier) *id, const MPT_STRUCT(id
 	else if (!(dest = malloc(from->_len))) {
 		return 0;
 	}
-	memcpy(dest, base, from->_len);
-	if (id->_len > id->_max) {
-		free(id->_base);
+	if (old) {
 		id->_base = 0;
+	}
+	memcpy(dest, base, from->_len);
+	if (old) {
+		free(old);
 	}
 	if (dest != id->_val) {
 		memset(id->_val, 0, sizeof(id->_val));
